@@ -87,9 +87,10 @@ static void install_db(void)
 	cJSON_AddItemToObject(us, "u2", mkuser("Hp2", "g2", 0, 0, 0));
 	cJSON_AddItemToObject(us, "adm", mkuser("Hpa", "g1", 0, 1, 0));
 	cJSON_AddItemToObject(us, "ro", mkuser("Hpr", 0, 0, 0, 1));
+	cJSON_AddItemToObject(us, "u3", mkuser("Hp3", "g", "g", 0, 0));        /* group "g": its name is a prefix of "g1" */
 	cJSON_AddItemToObject(db, "users", us);
 	user_data = db; users = us; password_file = 5;
-	cJSON *g = cJSON_CreateArray(); cJSON_AddItemToArray(g, cJSON_CreateString("g1")); cJSON_AddItemToArray(g, cJSON_CreateString("g2"));
+	cJSON *g = cJSON_CreateArray(); cJSON_AddItemToArray(g, cJSON_CreateString("g1")); cJSON_AddItemToArray(g, cJSON_CreateString("g2")); cJSON_AddItemToArray(g, cJSON_CreateString("g"));
 	__CPROVER_assume(add_groups(g) == 0);
 	cJSON_Delete(g);
 	FILE_BYTES[0] = 'O'; FILE_BYTES[1] = 'L'; FILE_BYTES[2] = 'D'; FILE_BYTES[3] = '!'; file_len = 4;
@@ -179,6 +180,8 @@ void harness_visibility(void)
 	__CPROVER_assume(login(&P1, "u1", "p1"));      /* g1: may see and set */
 #elif VISCASE == 1
 	__CPROVER_assume(login(&P1, "u2", "p2"));      /* g2 only: may neither see nor set */
+#elif VISCASE == 3
+	__CPROVER_assume(login(&P1, "u3", "p3"));      /* group "g" only, a different group whose name is a prefix of "g1" */
 #else
 	/* P1 never authenticates */
 #endif
@@ -235,6 +238,8 @@ void harness_passwd(void)
 	__CPROVER_assume(login(&P1, "adm", "pa")); target = "ro"; allowed = 0;     /* read-only account */
 #elif PWCASE == 5
 	__CPROVER_assume(login(&P1, "adm", "pa")); target = "nobody"; allowed = 0; /* unknown account */
+#elif PWCASE == 6
+	__CPROVER_assume(login(&P1, "ro", "pr")); target = "ro"; allowed = 0;      /* own account, but read-only */
 #endif
 	scn_build_begin(); cJSON *req = auth_req(5, "passwd", target, "nw"); scn_build_end();
 	reset_log();
